@@ -342,7 +342,7 @@ def main():
             rc, out = run([exe, "--replay", replay, "--out", outdir, "--seed", str(seed)], 1800)
             sys.stdout.write(out)
             return 0 if rc == 0 else 1
-        for f in ("impl.json", "cases.jsonl"):
+        for f in ("impl.json", "cases.jsonl", "current_case.json"):
             try:
                 os.remove(os.path.join(outdir, f))
             except OSError:
@@ -353,6 +353,17 @@ def main():
             broken.append(("harness-run", "rc=%s %s" % (rc, out[-3000:])))
             impl = {}
             failing, cerrors = [], []
+            # the process died (abort, stack overflow, kill): the input it was evaluating, if the
+            # binary recorded one (implrun::crash_guard), is a concrete failing input
+            cur = os.path.join(outdir, "current_case.json")
+            if os.path.exists(cur):
+                try:
+                    c = json.load(open(cur))
+                    impl = {"oracle_failures": [{"class": None,
+                                                 "what": "the process died (rc=%s) while evaluating this input: %s" % (rc, c.get("what", "")),
+                                                 "replay": c.get("replay")}]}
+                except (OSError, ValueError):
+                    pass
         else:
             impl = json.load(open(os.path.join(outdir, "impl.json")))
             # C (under the Coq lock: another check rebuilding Generated.vo meanwhile would make
